@@ -98,15 +98,35 @@ fn handle_get<W: Write>(root: &Path, path: &str, w: &mut W) -> std::io::Result<(
     let Some(dst) = safe_join(root, path) else {
         return write_frame(w, &Response::Error("bad path".into()));
     };
-    match (std::fs::metadata(&dst), current_hash(&dst)) {
-        (Ok(m), Some(hash)) => {
-            write_frame(w, &Response::Content { len: m.len(), hash })?;
-            let mut f = std::fs::File::open(&dst)?;
-            std::io::copy(&mut f, w)?;
-            w.flush()
+    // One open, one inode: length, hash and body must describe the same content.
+    // Commits replace the file by rename, so a descriptor opened before a commit
+    // keeps reading the old, complete version; three separate looks at the path
+    // could announce one version's length and hash and stream another's bytes.
+    let Ok(mut f) = std::fs::File::open(&dst) else {
+        return write_frame(w, &Response::Error("not found".into()));
+    };
+    let opened = f.metadata().and_then(|m| {
+        if m.is_file() {
+            Ok(m.len())
+        } else {
+            Err(std::io::Error::new(
+                std::io::ErrorKind::InvalidInput,
+                "not a file",
+            ))
         }
-        _ => write_frame(w, &Response::Error("not found".into())),
+    });
+    let Ok(len) = opened else {
+        return write_frame(w, &Response::Error("not found".into()));
+    };
+    let mut hasher = blake3::Hasher::new();
+    if std::io::copy(&mut f, &mut hasher).is_err() {
+        return write_frame(w, &Response::Error("not found".into()));
     }
+    let hash = *hasher.finalize().as_bytes();
+    write_frame(w, &Response::Content { len, hash })?;
+    std::io::Seek::seek(&mut f, std::io::SeekFrom::Start(0))?;
+    std::io::copy(&mut f.take(len), w)?;
+    w.flush()
 }
 
 #[allow(clippy::too_many_arguments)]
